@@ -103,6 +103,17 @@ start :: fn do
 end
 ''')
 
+T("float_literal_overflow", "float-literal-out-of-range", '''
+start :: fn do
+    big := 1e999
+    print(big > 1.0)
+    print(big == big + 1.0)
+    x := ?x:float
+    print(x < big)
+    print((0.0 - big) < x)
+end
+''', {})
+
 T("int_div", "int-division-yields-float", '''
 start :: fn do
     a := 7
